@@ -16,11 +16,11 @@ use std::io::Read;
 const UNKNOWN_FLAG: u32 = 1_000_000;
 
 fn convert_from_gear_id(id: u32) -> u32 {
-    id & !UNKNOWN_FLAG
+    id.wrapping_sub(UNKNOWN_FLAG)
 }
 
 fn convert_to_gear_id(id: &u32) -> u32 {
-    id | UNKNOWN_FLAG
+    id.wrapping_add(UNKNOWN_FLAG)
 }
 
 fn convert_to_string(s: NullString) -> String {
